@@ -71,7 +71,7 @@ def gen_case(rng, tier):
     col = [rng.randrange(3) for _ in range(n)]
     if rng.random() < 0.3:
         col[rng.randrange(n)] = None
-    kind = rng.choice([k for k in ["float", "int", "str", "dt"] if api.kind_ok(col, k)])
+    kind = rng.choice([k for k in ["float", "int", "str", "dt", "dttz", "date"] if api.kind_ok(col, k)])
     kcont = rng.choice(["numpy", "numpy", "pandas", "arrow", "arrow_chunked"])
     vcont = rng.choice(["numpy", "numpy", "pandas", "arrow", "arrow_chunked", "view"])
     route = rng.choice(["plain", "chunked"]) if kcont in ("numpy", "pandas") else "plain"
